@@ -57,7 +57,7 @@ def _is_nonzero_dim_fact(t: ast.AST, pol: bool) -> bool:
     return (isinstance(op, ast.Eq) and not pol) or (isinstance(op, (ast.NotEq, ast.Gt)) and pol)
 
 
-@rule("RESUME-ALL-1", props=["C09"], floor=5)
+@rule("RESUME-ALL-1", props=["C09", "C10"], floor=5)
 def resume_all(ctx: Ctx) -> None:
     """already_computed says "computed" only after *all* outputs were found complete; an output
     counts as complete only if nchunks_initialized == nchunks and it is not zero-dimensional;
